@@ -144,7 +144,7 @@ def showFail : Fail → String
   | .stuck => "stuck" | .timeout => "timeout"
 
 def showLog (st : State) : String :=
-  ",".intercalate (st.log.map fun p => s!"{p.1}={showVal st.heap p.2}")
+  ",".intercalate (st.log.reverse.map fun p => s!"{p.1}={showVal st.heap p.2}")
 
 def runCall (fuel : Nat) (P : Prog) (c : Nat × List Expr) : String :=
   match P.funcs[c.1]? with
